@@ -268,3 +268,9 @@ def run(ctx):
                 ctx.ok("R5", f"{h} replayed through the `{pub}` setter", f"{pi.module.relpath}:{pi.lineno}")
             else:
                 ctx.violate("R5", f"{h} given to the constructor is not replayed through the `{pub}` setter", pi, pi.node, construct=f"replay {h}")
+
+    # the shape validator itself (shared with C07-R5 / C12-R1): only `None` is a wildcard, 0 is a size
+    from .c07 import check_validate_shape
+
+    ctx.rule("R6", "the shape validator compares every non-None expected size, 0 included", "with zero atoms a non-empty per-atom array is accepted: the per-atom arrays disagree on the number of atoms")
+    check_validate_shape(ctx, "R6")
